@@ -31,6 +31,7 @@ static const char *const stop_clauses[] = { "result-status", "result-timeout", "
 struct cfg {
   int expired; /* the deadline has already passed when the stop sequence starts */
   int prefail; /* a failed start carrying a deadline precedes the real one on the same handle */
+  int timejump; /* the clock may jump forward by 5 ms at one of the library's clock reads (preemption, a stepped wall clock) */
   int a[3], t[3];
   int deadline; /* ms, 0 none */
   int cb, is, via;
@@ -240,6 +241,7 @@ static void evaluate(int kind, int r, const char *where)
   int order_ok = nsig <= ne;
   for (int i = 0; i < nsig && order_ok; i++)
     if (sigs[i] != exp_sig[i]) order_ok = 0;
+  int relaxed = S->used[K_TIME] > 0; /* the clock jumped: instants cannot be predicted; order, completeness and liveness still can */
   if (!order_ok) {
     char got[64] = "", want[64] = "";
     for (int i = 0; i < nsig; i++) snprintf(got + strlen(got), sizeof got - strlen(got), "%d ", sigs[i]);
@@ -248,6 +250,24 @@ static void evaluate(int kind, int r, const char *where)
     return;
   }
   vk_hit(CL_SIG_ORDER);
+  if (relaxed) {
+    if (kind == R_HANG) {
+      /* waiting forever is legitimate only in a slot with an infinite wait, with every signalling action up to it performed and a child that stays */
+      int ok = 0, need = 0;
+      for (int j = 0; j < m; j++) {
+        need += s[j].act == A_TERM || s[j].act == A_KILL;
+        if (s[j].tmo >= INF_T && nsig == need && !exited) ok = 1;
+      }
+      if (!ok) vk_violation(prop, "unexpected-hang", key, "after a clock jump: blocked forever in %s with %d signal(s) sent, although no wait of the policy in force at that point is infinite", where, nsig);
+      else vk_hit(CL_HANG);
+    } else if (kind == R_VALUE && r >= 0) {
+      if (!reaped_now || r != c->expect_status) vk_violation(prop, "status-iff-reaped", key, "after a clock jump: returned %d, child state %d, status %d", r, c->state, c->expect_status);
+    } else if (kind == R_DESTROY) {
+      int all_noop = C.a[0] == A_NOOP && C.a[1] == A_NOOP && C.a[2] == A_NOOP;
+      if (all_noop && !reaped_now) vk_violation("C15", "default-never-abandons", key, "after a clock jump: destroy returned without the child being reaped");
+    }
+    return;
+  }
   /* (ii) each action happens exactly when the waits before it have expired (virtual clock, no clock deviations) */
   for (int i = 0; i < nsig; i++) {
     if (sigt[i] != tau[exp_slot[i]]) {
@@ -382,7 +402,7 @@ static void evaluate(int kind, int r, const char *where)
  * a free run cannot reproduce is a zero-timeout look at a child that a signal has just been sent to: how fast a signal kills is up to the kernel. */
 static int free_run_comparable(void)
 {
-  if (C.faults || C.prefail || C.is == IS_WAITFAIL) return 0;
+  if (C.faults || C.prefail || C.is == IS_WAITFAIL || C.timejump) return 0;
   if (C.is != IS_RUNNING) return !(C.deadline > 0 && !C.expired && C.cb == CB_EXITS); /* the free run waits for the child's own exit: the deadline passes */
   struct slot s[3];
   int64_t tau[4];
@@ -424,7 +444,8 @@ static void run_cfg(const char *prop_unused)
   vk_cfg.sched_bound = hx_tier || C.deadline <= 0 ? 2 : 1; /* quick: two scheduling deviations without a deadline, one with */
   vk_cfg.vlimit = 24;
   vk_cfg.hello_lite = 1;
-  vk_autonomous_gap_ms = 600; /* 20 nominal ms at the free runs' time scale: later than the 5 + 3 x 2 ms the finite waits can add up to */
+  vk_autonomous_gap_ms = 600;
+  if (C.timejump) { vk_cfg.time_on = 1; vk_cfg.time_bound = 1; vk_cfg.time_jump = 5; } /* 20 nominal ms at the free runs' time scale: later than the 5 + 3 x 2 ms the finite waits can add up to */
   if (C.faults) {
     vk_cfg.faults_on = 1;
     vk_cfg.fault_bound = 1;
@@ -566,12 +587,28 @@ static void c07_run(int tier, long cfg)
 enum { D_NULL, D_NEVER_STARTED, D_FAILED_START, D_INVALID_OPTIONS, ND };
 #define NPREFAIL (NCB * 3 * 2)
 #define NINFDL (NCB * 2 * 2) /* the deadline option given as REPROC_INFINITE, the library's own word for "none" */
-static long c15_n(int tier) { return stop_n_mode(1, tier) + ND + NPREFAIL + NINFDL; }
+#define NTJ (NCB * 2 * 2)    /* a clock that jumps at one of the library's reads, for the policies that look at the deadline */
+static long c15_n(int tier) { return stop_n_mode(1, tier) + ND + NPREFAIL + NINFDL + NTJ; }
 static void c15_run(int tier, long cfg)
 {
   long n = stop_n_mode(1, tier);
   if (cfg < n) {
     decode(1, tier, cfg, &C); /* the destroy half of the space; the stop half belongs to C07 */
+    run_cfg("C15");
+    return;
+  }
+  if (cfg >= n + ND + NPREFAIL + NINFDL) {
+    long v = cfg - n - ND - NPREFAIL - NINFDL;
+    memset(&C, 0, sizeof C);
+    C.deadline = 3;
+    C.timejump = 1;
+    C.cb = (int) (v % NCB);
+    v /= NCB;
+    static const int pol3[2][6] = { { A_NOOP, A_NOOP, A_NOOP, 0, 0, 0 }, { A_WAIT, A_KILL, A_NOOP, -2, -1, 0 } };
+    for (int i = 0; i < 3; i++) { C.a[i] = pol3[v % 2][i]; C.t[i] = pol3[v % 2][3 + i]; }
+    v /= 2;
+    C.via = v ? VIA_DESTROY : VIA_STOP;
+    C.is = IS_RUNNING;
     run_cfg("C15");
     return;
   }
